@@ -1231,3 +1231,23 @@ Proof.
   exact (proj1 (serial_writes_sent m {| pt_in := rd; pt_out := pipe_writer |} res p' evs
                   eq_refl H)).
 Qed.
+
+Lemma wire_step_via_serial_eqn w m :
+  wire_step_via_serial w m
+  = match odk_process {| pt_in := pipe_reader (encode_nl (frame_of_msg m));
+                         pt_out := pipe_writer |} (wr_bus w) with
+    | None => None
+    | Some (res, op, b', _) =>
+        match res with
+        | Err OPanic => Some (w, WPanic)
+        | _ =>
+            match serial_process m {| pt_in := pipe_reader (wr_inbox w ++ w_out (pt_out op));
+                                      pt_out := pipe_writer |} with
+            | None => None
+            | Some (r, p', _) =>
+                Some ({| wr_bus := b'; wr_inbox := r_content (pt_in p') |},
+                      match r with Ok reply => WRep reply | Err _ => WErr end)
+            end
+        end
+    end.
+Proof. reflexivity. Qed.
